@@ -26,7 +26,7 @@ def main():
                    "kind_free_text": "Coq 8.16.1 theorems over a hand-written executable Gallina model (coq/), extracted to OCaml and run against the library compiled from /repo's working tree on the same cases (harness/), constants regenerated from /repo on every run"}],
       "checks": [],
       "not_applicable": [],
-      "notes": "See DESIGN.md. One entry point: ./check Cnn [--tier quick|thorough] [--replay file]. known_findings.json lists recorded genuine defects.",
+      "notes": "See DESIGN.md section 0 (status). One entry point: ./check Cnn [--tier quick|thorough] [--replay file]; VERIF_SEED selects the PRNG seed, VERIF_REPO an alternative source tree. known_findings.d/Cnn.json list the recorded genuine defects (known) and the repaired ones (fixed, with the /repo commit); seeded/ holds the seeded changes used to evaluate the checks.",
     }
     for p in props:
         if p in CLAIMED:
